@@ -150,8 +150,9 @@ public:
         double tellB = opn2_positionTell(dev[1]), tellA = opn2_positionTell(dev[0]);
         if(std::fabs(tellB - expectTell) > 1e-6 * (1 + expectTell)) run.fail("tell-after-seek", "class" + std::to_string(tclass), "sought " + std::to_string(t) + " (length " + std::to_string(length) + ") but opn2_positionTell reports " + std::to_string(tellB));
         (void)tellA;
-        // no note sounding in B
-        if(!run.failed())
+        // no note sounding in B (the property states this for targets inside the song; a seek beyond the end only "rewinds to the
+        // start": a drum hit inside its 30 ms minimum life time may still be ringing out there, and is released by the next tick)
+        if(!run.failed() && tclass != 2)
         {
             std::vector<OPNMIDIplay::OpnChannel> &cc = Acc::chipChannels(pb);
             for(size_t c = 0; c < cc.size(); ++c) if(!cc[c].users.empty()) { run.fail("note-sounding-after-seek", "class" + std::to_string(tclass), "chip channel " + std::to_string(c) + " has a user right after the seek"); break; }
